@@ -20,7 +20,7 @@ imports = ac.imports
 AXES = [
     ('raw', [True, False]),
     ('features', ['sparse', 'absent', 'noind', 'sparse_rows']),
-    ('curation', ['none', 'merge_split', 'reassign', 'swap']),
+    ('curation', ['none', 'merge_split', 'reassign', 'swap', 'exchange']),
     ('probes', ['absent', 'zeros']),
     ('kslabel', [False, True]),
     ('temp_wh', [False, True]),
@@ -54,6 +54,9 @@ def make_spec(cfg, fill):
             if x == last:
                 sc[i] = mx + 2 if seen < 1 else mx + 3
                 seen += 1
+    elif cfg['curation'] == 'exchange':
+        # two clusters exchange their ids: as many clusters as templates, each id's content changed
+        sc = [{1: 2, 2: 1}.get(x, x) for x in st]
     elif cfg['curation'] == 'swap':
         # one spike moved between two existing ids: the set of ids is the set of used templates
         sc = list(st)
@@ -74,7 +77,7 @@ def make_spec(cfg, fill):
         spec.update(n_channels=14, geometry='col14')
     spec['nsw'] = cfg.get('nsw', 4)
     if cfg.get('late_spike'):
-        spec['spike_samples'] = [2, 9, 16, 23, 30, 37, 44, spec['n_raw'] + 5]
+        spec['spike_samples'] = [0, 9, 16, 23, 30, 37, 44, spec['n_raw'] + 5]    # and the first at sample 0
     return spec
 
 
